@@ -347,6 +347,10 @@ package mcap
 /*@ func ParseChunk
     safety C10
     ensures r1 == nil ==> r0 != nil && fresh(r0) && len(r0.Records) <= len(buf)
+    ensures [chunk-fields-at-their-offsets] {C01 C11} r1 == nil ==> r0.MessageStartTime == le64at(buf, 0) && r0.MessageEndTime == le64at(buf, 8) && r0.UncompressedSize == le64at(buf, 16)
+        && r0.UncompressedCRC == le32at(buf, 24) && len(r0.Compression) == le32at(buf, 28)
+    ensures [chunk-records-are-exactly-the-declared-bytes] {C01 C11 C07} r1 == nil ==> len(r0.Records) == le64at(buf, 32 + le32at(buf, 28))
+        && base(r0.Records) == base(buf) && off(r0.Records) == off(buf) + 40 + le32at(buf, 28)
 @*/
 /*@ func ParseAttachmentIndex
     safety C10
@@ -967,6 +971,7 @@ package mcap
     ensures [registry-only-grows] {C05} len(w.schemas) >= old(len(w.schemas))
     ensures [schema-record-size] {C01 C05} err == nil && !(w.opts.Chunked && !old(w.closed)) ==> w.w.size == wrap64(old(w.w.size) + 23 + len(s.Name) + len(s.Encoding) + len(s.Data))
     ensures [schema-record-size] {C01 C05} err == nil && w.opts.Chunked && !old(w.closed) && old(w.compressedWriter.size) < 4611686018427387904 ==> w.compressedWriter.size == old(w.compressedWriter.size) + 23 + len(s.Name) + len(s.Encoding) + len(s.Data)
+    ensures [a-schema-record-is-emitted] {C01 C05} err == nil ==> ite(w.opts.Chunked && !old(w.closed), w.compressedWriter.size >= old(w.compressedWriter.size) + 23, offered(sink(w)) >= old(offered(sink(w))) + 23)
 @*/
 
 /*@ func (*Writer).WriteChannel
@@ -990,6 +995,7 @@ package mcap
     call writeRecord#2 assert [channel-record-fields] {C01} arg1 == OpChannel && le16at(arg2, 0) == c.ID && le16at(arg2, 2) == c.SchemaID && le32at(arg2, 4) == uint32(len(c.Topic)) && le32at(arg2, 8 + len(c.Topic)) == uint32(len(c.MessageEncoding))
         && forall(k, 0, len(c.Topic), arg2[8 + k] == c.Topic[k])
     ensures [registry-only-grows] {C05} len(w.channels) >= old(len(w.channels))
+    ensures [a-channel-record-is-emitted] {C01 C05} r0 == nil ==> ite(w.opts.Chunked && !old(w.closed), w.compressedWriter.size >= old(w.compressedWriter.size) + 21, offered(sink(w)) >= old(offered(sink(w))) + 21)
 @*/
 
 /*@ func (*Writer).WriteMessageIndex
@@ -1229,6 +1235,7 @@ package mcap
     ensures [crc-inv] {C06} crcInv(w)
     ensures [file-crc-range-kept] {C06} fileCrcKept(w, old(w.w.crc.crc), old(crcFrom(w)))
     call ensureSized#1 assert [scratch-buffer-independent-of-data-size] {C20} arg0 == 41 + len(a.Name) + len(a.MediaType)
+    call Copy#1 assert [attachment-data-streams-from-its-source-to-the-sink] {C20} arg1 == a.Data
 @*/
 
 /*@ func (*Writer).writeSummarySection
